@@ -5,7 +5,7 @@ import subprocess, sys, os, re
 ANSI = re.compile(r'\x1b\[[0-9;]*m')
 wt, ch = sys.argv[1], sys.argv[2]
 def sh(cmd, **kw):
-    return subprocess.run(cmd, shell=True, capture_output=True, text=True, **kw)
+    return subprocess.run(cmd, shell=True, capture_output=True, text=True, errors='replace', **kw)
 def demo():
     b = sh('gcc -std=gnu99 -I %s/include %s/demo.c %s/libCello.a -lpthread -lm -o %s/demo.bin' % (wt, ch, wt, ch))
     if b.returncode: return 'build-fail ' + b.stderr[-300:]
